@@ -10,8 +10,9 @@ META = {
     "text": "CredsMatrix.tla is a decision table (transport credentials: insecure, local over TCP / UDS / non-local peer, real TLS, "
             "custom credentials reporting each SecurityLevel, an invalid level, no CommonAuthInfo or a nil AuthInfo; configured by "
             "WithTransportCredentials or a credentials.Bundle; dial-level, bundle-level and call-level PerRPCCredentials each absent / "
-            "not requiring / requiring / self-checking with CheckSecurityLevel) with a reference outcome and the property clauses "
-            "NoLeak, MustFail, Delivered. TLC checks the reference against the clauses on the whole matrix (negative control: a "
+            "not requiring / requiring / self-checking with CheckSecurityLevel; per-connection histories of up to 3 RPCs with "
+            "different call-level credentials in every order on the same ClientConn) with a reference outcome and the property "
+            "clauses NoLeak, MustFail, Delivered, judged per RPC. TLC checks the reference against the clauses on the whole matrix (negative control: a "
             "reference accepting integrity-only) and every TLC-enumerated case is executed end to end (real grpc client and server "
             "over bufconn, a recording server handler); TLC validates every recorded (case, outcome) row against the clauses.",
     "note": "Decides exactly the enumerated matrix; InvalidSecurityLevel, missing CommonAuthInfo and nil AuthInfo are outside the "
@@ -30,7 +31,7 @@ def run(ctx):
     for text in g.nodes.values():
         cases.append(parse_tla_state(text, only={"cs"})["cs"])
     cases.sort(key=lambda c: json.dumps(c, sort_keys=True))
-    if len(cases) < 1000:
+    if len(cases) < 2000:
         raise Inconclusive("matrix export too small: %d cases" % len(cases))
     ctx.cov["behaviours_generated"] += len(cases)
     binary = ctx.go_build("internal/zzverif/c58")
@@ -42,17 +43,20 @@ def run(ctx):
     if len(rows) != len(cases):
         raise Inconclusive("driver returned %d rows for %d cases" % (len(rows), len(cases)))
     for r in rows:
-        key = [r.get(k) for k in ("t", "via", "d", "b", "c")]
-        ctx.count(key, nontrivial=any(r.get(k) != "absent" for k in ("d", "b", "c")))
+        key = [r.get(k) for k in ("t", "via", "d", "b", "calls")]
+        ctx.count(key, nontrivial=any(r.get(k) != "absent" for k in ("d", "b")) or any(c != "absent" for c in r.get("calls", [])))
     for r in rows[:: max(1, len(rows) // 4)][:4]:
-        ctx.sample({k: r.get(k) for k in ("t", "via", "d", "b", "c", "dial", "code", "streams")})
+        ctx.sample({k: r.get(k) for k in ("t", "via", "d", "b", "calls", "dial", "rpcs")})
     res = ctx.validate("CredsMatrixTrace", "CredsMatrixTrace.cfg", tpath, count_resets=False)
     ctx.cov["traces_validated_against_impl"] += len(rows)
     if not res["accepted"]:
         bad = rows[res["line"] - 1]
         ctx.violation("credentials matrix: clause %s violated by case %s" % (res["clause"], json.dumps(bad)[:500]),
                       {"clause": res["clause"], "row": bad})
-    ctx.cov["rule"] = ("cases = all states of CredsMatrixMC (transport x via x dial-level x bundle-level x call-level credential kind); "
-                       "each executed once end to end; non-trivial = at least one per-RPC credential configured; distinct by case")
+    ctx.cov["rule"] = ("cases = all states of CredsMatrixMC: per-connection histories (transport x via x dial-level x bundle-level "
+                       "credential kind x the sequence of call-level credential kinds of the 1-3 RPCs made on the one ClientConn: all "
+                       "single RPCs, and every order of absent / not requiring / requiring / self-checking for 2 and 3 RPCs over every "
+                       "transport); each executed once end to end, every RPC judged; non-trivial = at least one per-RPC credential "
+                       "configured; distinct by case")
     ctx.assumptions += ["custom TransportCredentials handshakes return the connection unchanged with the chosen AuthInfo; "
                         "local credentials see a wrapped net.Conn whose RemoteAddr is tcp 127.0.0.1 / unix / a non-local address"]
